@@ -10,9 +10,10 @@ def build(ctx):
     ctx.log("translate", out)
     if not ok:
         ctx.diag.append("translator failed: " + out[-300:])
-    C.prove(ctx, ["Props/C06.v", "Props/C06Ops.v"],
+    C.prove(ctx, ["Props/C06.v", "Props/C06Ops.v", "Props/C06Reader.v"],
             ["Oblig/C06Obl.v", "Model/TotalityFacts.v", "Model/PartialTable.v",
-             "Oblig/C06OpsObl.v", "Model/TotalOpsFacts.v", "Model/TotalJsonFacts.v", "Model/OpSiteTable.v"])
+             "Oblig/C06OpsObl.v", "Model/TotalOpsFacts.v", "Model/TotalJsonFacts.v", "Model/OpSiteTable.v",
+             "Oblig/C06ReaderObl.v", "Model/ReaderShapeFacts.v", "Model/ReaderSiteTable.v", "Model/ReaderTextFacts.v"])
     ok, out = C.build_harness()
     ctx.log("go build", out)
     if not ok:
@@ -26,6 +27,10 @@ def build(ctx):
     ctx.log("ocaml c06ops", out[-3000:])
     if not ok:
         ctx.diag.append("extracted shape model does not build: " + out[-600:])
+    ok, out = C.build_ocaml("c06reader")
+    ctx.log("ocaml c06reader", out[-3000:])
+    if not ok:
+        ctx.diag.append("extracted reader model does not build: " + out[-600:])
     return True
 
 
@@ -46,8 +51,42 @@ def oracle(ctx, n, sub="oracle"):
     return summ
 
 
+def reader_corr(ctx, n, orders, sample, sub="readercorr", compare=True):
+    """Phase 5: the shape model of the Reader's state machine (ReaderShape.v) against the real Reader on
+    structure-aware line sequences: every order of 9 record kinds up to `orders` lines exhaustively, sampled
+    orders up to 6 lines, generated valid files of every SEC code, and `n` files with deleted / duplicated /
+    moved / foreign / retyped lines.  Observed: the verdict of every line, the reader's state after the last
+    line (current batch, current IAT batch, file: by reflection through the verif hook), accept / reject and the
+    shape of the file Read returns.  A panic of the Reader is a failure of the property (key panic:reader:<frame>)."""
+    d = os.path.join(ctx.rundir, sub)
+    os.makedirs(d, exist_ok=True)
+    rc, out = C.sh([os.path.join(C.BIN, "c06reader"), "corr", "-out", d, "-n", str(n), "-orders", str(orders), "-sample", str(sample),
+                    "-corpus", os.path.join(C.VERIF, "corpus", "C06")], timeout=3000)
+    ctx.log("c06reader corr", out[-1000:])
+    drv = os.path.join(C.BUILD, "ocaml", "c06reader", "driver")
+    if rc != 0 or not os.path.exists(drv):
+        ctx.diag.append("reader correspondence could not run: " + out[-300:])
+        return None
+    summ = ctx.read_jsonl(os.path.join(d, "fails.jsonl"))
+    if compare:
+        rc2, out2 = C.sh("%s %s %s > %s" % (drv, os.path.join(d, "cases.txt"), os.path.join(d, "stats.txt"), os.path.join(d, "model.txt")), timeout=3000)
+        if rc2 != 0:
+            ctx.diag.append("extracted reader model crashed: " + out2[-300:])
+        try:
+            stats = {a[0]: int(a[1]) for a in (l.split() for l in open(os.path.join(d, "stats.txt"))) if len(a) == 2}
+        except (OSError, ValueError):
+            stats = {}
+        ctx.compare("reader shape model: line verdicts, reader state, returned file", os.path.join(d, "model.txt"), os.path.join(d, "impl.txt"), os.path.join(d, "cases.txt"))
+    if summ:
+        ctx.cov["reader_correspondence"] = {"cases": summ.get("evaluations"), "distribution": summ.get("distribution"), "panics_by_frame": summ.get("panics")}
+        if compare:
+            ctx.cov["reader_correspondence"]["model_lines"] = stats
+    return summ
+
+
 def search(ctx, factor):
     before = len(ctx.fails)
+    reader_corr(ctx, ctx.scale(5000, 60000) * factor, 5, 20000, "readersearch", compare=False)
     shape_corr(ctx, ctx.scale(500, 6000) * factor, "opssearch")
     oracle(ctx, ctx.scale(3000, 60000) * factor, "search")
     found = ctx.fails[before:]
@@ -155,6 +194,7 @@ def site_stats(ctx):
         # phase 1 left 192 entries to search; what phase 2 discharges
         ctx.cov["partial_sites"]["phase2_discharged_by_shape_model"] = by.get("ops-model", 0)
         ctx.cov["partial_sites"]["phase2_discharged_by_type_aware_table"] = sum(by.get(k, 0) for k in ("value", "map", "nil-safe", "loop-bound", "sort-less", "last"))
+        ctx.cov["partial_sites"]["phase5_discharged_by_reader_model"] = by.get("reader-model", 0)
     except OSError:
         pass
     try:
@@ -181,11 +221,14 @@ def run(ctx):
         "type resolution of translator/opsites.go (syntactic: struct, method, function and variable declarations; local variables by their defining assignment; no aliasing analysis); the semantics of Go for its classes value / map / nil-safe / loop-bound / sort-less / last",
         "coq/Model/OpsCovered.v: which definition of the shape model stands for which Go function (checked for completeness against Gen/OpSites.v, not for the body of the transcription: that is the correspondence c06ops)",
         "contract of encoding/json (struct decoding and MarshalJSON never panic on nil pointers / nil interfaces) and of sort.Slice (less receives indexes in range)",
+        "coq/Model/ReaderSiteTable.v: which site kind of the reader model stands for which dereference of reader.go (checked for completeness and exact counts against Gen/OpSites.v); coq/Model/ReaderEffectsTable.v: the control skeleton and state effects of the reader functions, pinned as text against Gen/ReaderEffects.v (translator/readereffects.go, syntactic)",
+        "verif build-tag hook verif_export_c06reader.go (Reader.VerifStep = lineNum++ and readLine, VerifCurrent, VerifSkipBatchAccumulation); harness/cmd/c06reader computes the line descriptors with the library's own record parsers",
     ]
     ctx.assumptions += [
         "PARTIAL: the slice / index theorems cover the modelled logic (reader line handling, value-dependent accessors and the validators calling them, padded-field slices, rune-guarded Parse functions); hangs are covered by the watchdog oracle only",
         "C06_ops_total_partial: call sequences never panic on WELL-FORMED shapes (header, matching control, no nil entry / addenda element, no nil Batcher); the statement over ALL shapes is refuted (C06_ops_total_refuted); ill-formed shapes are produced by no reader, decoder or operation (C06_json_result_wf, C06_ops_result_total_partial) and are outside the property's domain; FlattenBatches additionally needs SEC codes NewBatch accepts (known finding panic:ach.mergeableBatcher.Consume)",
-        "C06_json_total_partial: the struct decoding is encoding/json's; C06_handlers_total_partial: NACHA-text bodies are assumed to parse to well-formed files (the reader's invariants stay search-only: 18 sites), repository aliasing after POST …/balance is idealised as a copy",
+        "C06_json_total_partial: the struct decoding is encoding/json's; C06_handlers_total (phase 5): NACHA-text bodies are ANY line sequence read by the shape model of the Reader (C06_reader_inv, C06_reader_total, C06_reader_result_wf: the reader's 16 invariant-dependent entries are proved; 2 search-only entries remain: ReadFiles out[i], CheckRoutingNumber last byte); repository aliasing after POST …/balance is idealised as a copy",
+        "reader model: a line is its record type plus the data the control flow reads from it; the line splitting of Read (bufio.ScanRunes, 94 runes, blank lines) and the fixed-width first line are phase 1 (C06_read_line_total…); a fixed-width first line is a line sequence that stops at the first record in error",
         "shapes abstract data: every data-dependent check of the source is an oracle bit; the theorems quantify over all oracles",
         "the first line handed to Reader.readLine has at most 94 runes (Reader.Read cuts lines at 94 runes); the fixed-width branch for longer first lines is modelled and checked by correspondence, not proved",
         "panics inside encoding/json, gorilla/mux, go-kit, x/net/html/charset and memory exhaustion are outside the model",
@@ -208,6 +251,8 @@ def run(ctx):
     else:
         ctx.diag.append("correspondence could not run: " + out[-300:])
     shape_corr(ctx, ctx.scale(500, 6000))
+    rsumm = reader_corr(ctx, ctx.scale(5000, 60000), ctx.scale(5, 6), ctx.scale(3000, 0))
+    ctx.add_summary(rsumm, "reader shape correspondence")
     summ = oracle(ctx, ctx.scale(3000, 60000))
     ctx.add_summary(summ, "recover+watchdog oracle")
     if ctx.tier == "thorough":
@@ -259,6 +304,8 @@ def replay(path):
         inp = rp.get("input", rp)
         if isinstance(inp, dict) and ("muts" in inp or "edits" in inp or "reqs" in inp) and "data" not in inp:
             binary = "c06ops"
+        if isinstance(inp, dict) and inp.get("kind") == "reader" and "lines" in inp:
+            binary = "c06reader"
     except (OSError, ValueError):
         pass
     rc, out = C.sh([os.path.join(C.BIN, binary), "replay", path], timeout=600)
